@@ -21,11 +21,13 @@ import (
 	"io"
 	"math/rand"
 	"net"
+	"reflect"
 	"sort"
 	"strings"
 	"sync"
 	"testing"
 	"time"
+	"unsafe"
 
 	"github.com/go-kit/log"
 	"go.universe.tf/metallb/internal/bgp"
@@ -74,9 +76,10 @@ type sPeer struct {
 	fails                []([3]string) // sig, what
 	msgs                 int
 	kalives              int
-	closedAt             int // len(trace) when Close returned, -1 before
-	sess                 *session
+	closedAt             int           // len(trace) when Close returned, -1 before
 	t0                   time.Time     // start of the schedule
+	closeCalled          bool          // the driver is in / past Close()
+	lastMsg              time.Time     // last BGP message seen by the peer
 	failAt               time.Time     // a connection attempt failed then (zero: none outstanding)
 	failDelay            time.Duration // documented backoff before the next dial: 0, 1s, 2s, ... 2min; reset by a success
 	streak               int
@@ -202,10 +205,11 @@ func (p *sPeer) serve() {
 	}
 }
 
+// sessionClosed: has the driver asked for Close()? (public API, no session internals)
 func (p *sPeer) sessionClosed() bool {
-	p.sess.mu.Lock()
-	defer p.sess.mu.Unlock()
-	return p.sess.closed
+	p.mu.Lock()
+	defer p.mu.Unlock()
+	return p.closeCalled
 }
 
 func (p *sPeer) handle(pc *sPeerConn, sc sConnScript) {
@@ -376,6 +380,7 @@ func (p *sPeer) handle(pc *sPeerConn, sc sConnScript) {
 				p.widthOK++
 			}
 		}
+		p.lastMsg = time.Now()
 		m, derr := vDecode(mb, sc.as4)
 		switch {
 		case derr != nil:
@@ -665,8 +670,7 @@ func sRunSchedule(t *testing.T, out *vOut, id int, r *rand.Rand, special string)
 	if err != nil {
 		t.Fatal(err)
 	}
-	s := si.(*session)
-	p.sess = s
+	s := si // bgp.Session: only Set and Close are used on it
 
 	want := map[int]int{}
 	variants := []int{0, 1, 2}
@@ -868,6 +872,9 @@ func sRunSchedule(t *testing.T, out *vOut, id int, r *rand.Rand, special string)
 
 	final := "stable"
 	if closeIt {
+		p.mu.Lock()
+		p.closeCalled = true
+		p.mu.Unlock()
 		s.Close()
 		p.mu.Lock()
 		p.closedAt = len(p.trace)
@@ -922,10 +929,10 @@ func sRunSchedule(t *testing.T, out *vOut, id int, r *rand.Rand, special string)
 			pc := p.cur
 			good := pc != nil && pc.estab && !pc.gone && !pc.dropped && pc.arm < 0 && sEq(pc.table, want)
 			p.mu.Unlock()
-			if good {
-				s.mu.Lock()
-				good = s.conn != nil && s.new == nil && !s.closed
-				s.mu.Unlock()
+			if good { // ... and the sender has gone quiet
+				p.mu.Lock()
+				good = time.Since(p.lastMsg) > 30*time.Millisecond
+				p.mu.Unlock()
 			}
 			now := time.Now()
 			if good {
@@ -958,6 +965,7 @@ func sRunSchedule(t *testing.T, out *vOut, id int, r *rand.Rand, special string)
 			p.log(fmt.Sprintf("TFinal %d %s", cid, sTableStr(tb)), "end: NOT converged")
 		}
 		p.done = true
+		p.closeCalled = true
 		p.mu.Unlock()
 		s.Close()
 	}
@@ -993,6 +1001,139 @@ func sRunSchedule(t *testing.T, out *vOut, id int, r *rand.Rand, special string)
 	coq := fmt.Sprintf("STrace %d {| my_asn := %d; peer_asn := %d; universe := %s; cfg_hold := %s |} [%s]",
 		id, myASN, peerASN, cListN([]int{0, 1, 2, 3, 4, 5}), holdCoq, strings.Join(p.trace, "; "))
 	out.Case(id, "schedule:"+final, coq, human)
+}
+
+// ---------------------------------------------------------------- white-box accessor layer
+// The properties are about black-box observables (bytes on the wire, the peer's
+// tables, the public API).  The white-box parts of this harness (state before /
+// after a step, hand-built sessions) reach the UNEXPORTED state of a session only
+// through this layer: fields are looked up by name with reflect and checked for
+// their kind / type.  A field that is absent or has another representation makes
+// the white-box comparison that needs it SKIP (stat whitebox_skipped:<field>);
+// the harness keeps compiling and the black-box oracles keep running.
+type wbSess struct {
+	s       *session
+	v       reflect.Value
+	missing string // first field that was not found in the expected representation
+}
+
+func wbWrap(s *session) *wbSess { return &wbSess{s: s, v: reflect.ValueOf(s).Elem()} }
+
+// f returns a readable and settable handle on field `name` if it exists and
+// ok(its type); otherwise notes it as missing.
+func (w *wbSess) f(name string, ok func(reflect.Type) bool) (reflect.Value, bool) {
+	fv := w.v.FieldByName(name)
+	if !fv.IsValid() || !ok(fv.Type()) {
+		if w.missing == "" {
+			w.missing = name
+		}
+		return reflect.Value{}, false
+	}
+	return reflect.NewAt(fv.Type(), unsafe.Pointer(fv.UnsafeAddr())).Elem(), true
+}
+
+var (
+	wbAdvMap  = reflect.TypeOf(map[string]*bgp.Advertisement{})
+	wbConnT   = reflect.TypeOf((*net.Conn)(nil)).Elem()
+	wbMutexT  = reflect.TypeOf(sync.Mutex{})
+	wbCondT   = reflect.TypeOf((*sync.Cond)(nil))
+	wbIPT     = reflect.TypeOf(net.IP{})
+	wbParamsT = reflect.TypeOf(bgp.SessionParameters{})
+)
+
+func wbIs(t reflect.Type) func(reflect.Type) bool {
+	return func(x reflect.Type) bool { return x == t }
+}
+func wbKind(k reflect.Kind) func(reflect.Type) bool {
+	return func(x reflect.Type) bool { return x.Kind() == k }
+}
+
+func (w *wbSess) setBool(name string, b bool) {
+	if f, ok := w.f(name, wbKind(reflect.Bool)); ok {
+		f.SetBool(b)
+	}
+}
+func (w *wbSess) getBool(name string) bool {
+	f, ok := w.f(name, wbKind(reflect.Bool))
+	return ok && f.Bool()
+}
+func (w *wbSess) setAdvMap(name string, m map[string]*bgp.Advertisement) {
+	if f, ok := w.f(name, wbIs(wbAdvMap)); ok {
+		f.Set(reflect.ValueOf(m))
+	}
+}
+
+// advMap reads a map[string]*Advertisement field: (is nil, the entries as pointer values)
+func (w *wbSess) advMap(name string) (bool, []uintptr) {
+	f, ok := w.f(name, wbIs(wbAdvMap))
+	if !ok {
+		return true, nil
+	}
+	if f.IsNil() {
+		return true, nil
+	}
+	var ps []uintptr
+	for _, k := range f.MapKeys() {
+		ps = append(ps, f.MapIndex(k).Pointer())
+	}
+	return false, ps
+}
+func (w *wbSess) setConn(c net.Conn) {
+	if f, ok := w.f("conn", wbIs(wbConnT)); ok {
+		f.Set(reflect.ValueOf(c))
+	}
+}
+func (w *wbSess) conn() net.Conn {
+	f, ok := w.f("conn", wbIs(wbConnT))
+	if !ok || f.IsNil() {
+		return nil
+	}
+	return f.Interface().(net.Conn)
+}
+func (w *wbSess) mutex() *sync.Mutex {
+	fv := w.v.FieldByName("mu")
+	if !fv.IsValid() || fv.Type() != wbMutexT {
+		return nil
+	}
+	return (*sync.Mutex)(unsafe.Pointer(fv.UnsafeAddr()))
+}
+func (w *wbSess) lock() {
+	if m := w.mutex(); m != nil {
+		m.Lock()
+	}
+}
+func (w *wbSess) unlock() {
+	if m := w.mutex(); m != nil {
+		m.Unlock()
+	}
+}
+
+// wbMake builds a session value by hand (no goroutines): the plumbing fields are
+// set when present; the caller sets and checks the state fields it needs.
+func wbMake(params bgp.SessionParameters, name string) *wbSess {
+	w := wbWrap(new(session))
+	if f, ok := w.f("SessionParameters", wbIs(wbParamsT)); ok {
+		f.Set(reflect.ValueOf(params))
+	}
+	if f, ok := w.f("logger", wbKind(reflect.Interface)); ok {
+		l := reflect.ValueOf(log.NewNopLogger())
+		if l.Type().Implements(f.Type()) {
+			f.Set(l)
+		}
+	}
+	if f, ok := w.f("newHoldTime", wbKind(reflect.Chan)); ok {
+		f.Set(reflect.MakeChan(f.Type(), 1))
+	}
+	if f, ok := w.f("peerName", wbKind(reflect.String)); ok {
+		f.SetString(name)
+	}
+	if m := w.mutex(); m != nil {
+		if f, ok := w.f("cond", wbIs(wbCondT)); ok {
+			f.Set(reflect.ValueOf(sync.NewCond(m)))
+		}
+	}
+	w.missing = "" // plumbing is best effort; state fields decide
+	return w
 }
 
 // ---------------------------------------------------------------- white-box steps
@@ -1035,28 +1176,36 @@ func sStepCase(out *vOut, id int, r *rand.Rand) {
 		return m
 	}
 	ht := 90 * time.Second
-	s := &session{SessionParameters: bgp.SessionParameters{PeerAddress: "127.0.0.1", PeerPort: 1, MyASN: 64512, PeerASN: sPeerASN, HoldTime: &ht},
-		logger: log.NewNopLogger(), newHoldTime: make(chan bool, 1), peerName: "verif-step"}
-	s.cond = sync.NewCond(&s.mu)
+	w := wbMake(bgp.SessionParameters{PeerAddress: "127.0.0.1", PeerPort: 1, MyASN: 64512, PeerASN: sPeerASN, HoldTime: &ht}, "verif-step")
+	s := w.s
+	// the state this comparison is about: closed, conn, advertised, new (nil = nothing pending)
+	w.getBool("closed")
+	w.conn()
+	w.advMap("advertised")
+	w.advMap("new")
+	if w.missing != "" {
+		out.Stat("whitebox_skipped:"+w.missing, 1)
+		return
+	}
 	pre := struct {
 		closed, conn bool
 		adv          []sKV
 		pend         []sKV
 		hasPend      bool
 	}{closed: r.Intn(6) == 0, conn: r.Intn(2) == 0, adv: randList(), hasPend: r.Intn(2) == 0}
-	s.closed = pre.closed
-	s.advertised = toMap(pre.adv)
+	w.setBool("closed", pre.closed)
+	w.setAdvMap("advertised", toMap(pre.adv))
 	if pre.hasPend {
 		pre.pend = randList()
 		if r.Intn(5) == 0 {
 			pre.pend = nil // non-nil empty map: "withdraw all"
 		}
-		s.new = toMap(pre.pend)
+		w.setAdvMap("new", toMap(pre.pend))
 	}
 	if pre.conn {
 		c1, c2 := net.Pipe()
 		defer c2.Close()
-		s.conn = c1
+		w.setConn(c1)
 	}
 	opn := r.Intn(6)
 	op, opH := "OAbort", "abort"
@@ -1068,9 +1217,7 @@ func sStepCase(out *vOut, id int, r *rand.Rand) {
 		rc := io.ReadCloser(a)
 		if cur {
 			a.Close()
-			s.mu.Lock()
-			c2 := s.conn
-			s.mu.Unlock()
+			c2 := w.conn()
 			// the session's own connection, its peer end closed
 			rc = c2.(io.ReadCloser)
 			c2.Close()
@@ -1081,7 +1228,7 @@ func sStepCase(out *vOut, id int, r *rand.Rand) {
 		ok := r.Intn(2) == 0
 		if pre.conn {
 			a, b := net.Pipe()
-			s.conn = a
+			w.setConn(a)
 			if ok {
 				go io.Copy(io.Discard, b)
 				defer b.Close()
@@ -1095,9 +1242,9 @@ func sStepCase(out *vOut, id int, r *rand.Rand) {
 		}
 		op, opH = "(OKeepalive "+cBool(ok)+")", fmt.Sprintf("keepalive ok=%v", ok)
 	case 0:
-		s.mu.Lock()
+		w.lock()
 		s.abort()
-		s.mu.Unlock()
+		w.unlock()
 	case 1:
 		l := randList()
 		if r.Intn(3) == 0 && len(l) > 0 { // duplicate prefix, last wins
@@ -1125,17 +1272,22 @@ func sStepCase(out *vOut, id int, r *rand.Rand) {
 		s.Close()
 		op, opH = "OClose", "Close"
 	}
-	rd := func(m map[string]*bgp.Advertisement) []sKV {
+	byPtr := map[uintptr]sKV{}
+	for a, e := range index {
+		byPtr[reflect.ValueOf(a).Pointer()] = e
+	}
+	rd := func(field string) (bool, []sKV) {
+		isNil, ps := w.advMap(field)
 		var l []sKV
-		for _, a := range m {
-			e, ok := index[a]
+		for _, a := range ps {
+			e, ok := byPtr[a]
 			if !ok {
 				e = sKV{99, 99}
 			}
 			l = append(l, e)
 		}
 		sort.Slice(l, func(i, j int) bool { return l[i].K < l[j].K })
-		return l
+		return isNil, l
 	}
 	st := func(closed, conn bool, adv []sKV, hasPend bool, pend []sKV) string {
 		ps := cNone
@@ -1144,10 +1296,12 @@ func sStepCase(out *vOut, id int, r *rand.Rand) {
 		}
 		return fmt.Sprintf("{| x_closed := %s; x_conn := %s; x_adv := %s; x_pend := %s |}", cBool(closed), cBool(conn), sPairs(adv), ps)
 	}
-	s.mu.Lock()
-	post := st(s.closed, s.conn != nil, rd(s.advertised), s.new != nil, rd(s.new))
-	postH := fmt.Sprintf("closed=%v conn=%v advertised=%v new(nil=%v)=%v", s.closed, s.conn != nil, rd(s.advertised), s.new == nil, rd(s.new))
-	s.mu.Unlock()
+	w.lock()
+	_, advL := rd("advertised")
+	newNil, newL := rd("new")
+	post := st(w.getBool("closed"), w.conn() != nil, advL, !newNil, newL)
+	postH := fmt.Sprintf("closed=%v conn=%v advertised=%v new(nil=%v)=%v", w.getBool("closed"), w.conn() != nil, advL, newNil, newL)
+	w.unlock()
 	out.Stat("step:"+strings.Fields(opH)[0], 1)
 	if pre.hasPend && opn == 0 {
 		out.Stat("step:abort-with-pending", 1)
@@ -1177,10 +1331,30 @@ func sPipeSchedule(out *vOut, id int, r *rand.Rand) {
 		peerASN = myASN
 	}
 	ht := 90 * time.Second
-	s := &session{SessionParameters: bgp.SessionParameters{PeerAddress: "127.0.0.1", PeerPort: 1, MyASN: myASN, PeerASN: peerASN, HoldTime: &ht},
-		logger: log.NewNopLogger(), newHoldTime: make(chan bool, 1), peerName: fmt.Sprintf("verif-pipe-%d", id),
-		advertised: map[string]*bgp.Advertisement{}, conn: c1, nextHop: net.IP{127, 0, 0, 1}, peerFBASNSupport: fb}
-	s.cond = sync.NewCond(&s.mu)
+	w := wbMake(bgp.SessionParameters{PeerAddress: "127.0.0.1", PeerPort: 1, MyASN: myASN, PeerASN: peerASN, HoldTime: &ht}, fmt.Sprintf("verif-pipe-%d", id))
+	s := w.s
+	// a hand-made established connection needs: advertised, conn, nextHop, peerFBASNSupport
+	w.setAdvMap("advertised", map[string]*bgp.Advertisement{})
+	w.setConn(c1)
+	if f, ok := w.f("nextHop", wbIs(wbIPT)); ok {
+		f.Set(reflect.ValueOf(net.IP{127, 0, 0, 1}))
+	}
+	w.setBool("peerFBASNSupport", fb)
+	if w.missing != "" || w.mutex() == nil {
+		if w.missing == "" {
+			w.missing = "mu"
+		}
+		out.Stat("whitebox_skipped:"+w.missing, 1)
+		c1.Close()
+		return
+	}
+	// "nothing pending" is read from the field `new` when the session has it in that form;
+	// otherwise quiescence falls back to timing
+	_, hasNew := w.f("new", wbIs(wbAdvMap))
+	w.missing = ""
+	if !hasNew {
+		out.Stat("whitebox_skipped:new(pipe-idle-check-by-timing)", 1)
+	}
 	var mu sync.Mutex
 	var trace, human []string
 	var fails [][2]string
@@ -1326,10 +1500,13 @@ func sPipeSchedule(out *vOut, id int, r *rand.Rand) {
 		default:
 			continue
 		}
-		if s.mu.TryLock() {
-			idle := s.new == nil
-			s.mu.Unlock()
-			if idle {
+		if w.mutex().TryLock() {
+			idle := true
+			if hasNew {
+				idle, _ = w.advMap("new")
+			}
+			w.mutex().Unlock()
+			if idle && (hasNew || (!readOne(80*time.Millisecond) && !readOne(80*time.Millisecond))) {
 				break
 			}
 		}
